@@ -337,6 +337,15 @@ def gen_desc(seed, idx):
         # new sending decision and has to respect what was announced in between
         faults = {'mode': 'explicit', 'list': [{'kind': 'delay', 'd': rng.choice([1.5, 2.5, 3.5]), 'ord': rng.choice([0, 1])},
                                                {'kind': 'drop', 'ord': 2}]}
+    if iam and len(stacks) == 2 and faults.get('mode') == 'none' and rng.random() < 0.06:
+        # the peer is known, the first transmission is lost, and before the retry the peer announces itself again from the
+        # same address with SMALLER limits (it was restarted with another configuration): the retry has to respect them
+        stacks.append({'name': 'raw0', 'addr': 30, 'role': 'raw', 'spoofing': True})
+        smaller = [x for x in txngen.APDU_SIZES if x < caps[1]['maxApdu']] or [50]
+        apdu = wire.unconf_req(0, wire.tag_objid(8, 1010) + wire.tag_uint(rng.choice(smaller)) + wire.tag_enum(rng.choice([0, 0, 2, 3, 1])) + wire.tag_uint(999))
+        ops.append({'t': rng.choice([1.5, 2.5, 3.5]), 'op': 'raw', 'node': 'raw0', 'dst': '*', 'src': 10, 'octets': wire.encode_npdu(apdu).hex()})
+        ops.sort(key=lambda o: o['t'])
+        faults = {'mode': 'explicit', 'list': [{'kind': 'drop', 'ord': 2}]}
     return {'prop': 'C12', 'scenario': 'txn', 'seed': H(seed, 'C12run', idx) & 0x7fffffff, 'stacks': stacks,
             'iam': iam, 'ops': ops, 'faults': faults, 'caps': {'frames': 40000, 'ticks': 600000}}
 
